@@ -15,6 +15,10 @@ class P(vlib.Prop):
             "the same concatenation (the scenario of the former finding C08-F2, fixed by 3541d7b: both orders, also with an architecture that has no indexes - regression replays), a republished index (new object, same name and source), three architectures resolved in turn; observed per call: "
             "the answer, the set the cache holds under the call's key, the uncached disqualifyDifference with its messages (hook). In Coq (check_history): all three must equal the model (dq_cache_get, dq_objs, dq_reasons); "
             "foreign_check / single-architecture-unaffected on the implementation's answers, tagged dq-cache-key-ignores-grouping exactly when an earlier call used the key with another grouping (no longer a listed finding: a VIOLATION). "
+            "stage conc: concurrent per-architecture resolutions, the schedule BuildPackageLists / BuildLayers produce, through the library API: one GetPackagesWithDependencies(allArchs) per architecture of a skewed family "
+            "(2-4 architectures, named or unnamed indexes), every round from a cold cache with fresh index objects wrapped so that Packages() stalls while armed; each architecture in turn is started first and held inside "
+            "disqualifyDifference while the other architectures' calls arrive, then released (corpus: the foo-2.0-r0-on-x86_64-only family of seeded C14-9, both ARM variants lagging). In Coq (check_conc): every architecture's list, "
+            "every round, must EQUAL the model's list from an empty cache and pass foreign_check. In the multiarch stage foreign_check now also runs on the lists BuildPackageLists returned (the concurrent run). "
             "stage c14: corpus first (C14-F1 replay, also through a chain of install_if packages, newer build on one architecture only, a package missing three dependency levels deep over three architectures, "
             "a provider available on one side only, single architecture with and without install_if additions), then families of per-architecture universes: a generated base universe (as in C02's "
             "general stream; a quarter with install_if packages; a third with an explicit dependency chain c0 -> ... -> cN, N = 2..4, whose newest LEAF is missing on "
@@ -27,6 +31,7 @@ class P(vlib.Prop):
             "some run installs two or more packages; distinct = distinct case terms.")
     stages = (
         dict(name="c14", cmd="c02", args=lambda t, s: ["-stage", "c14"]),
+        dict(name="conc", cmd="c14", args=lambda t, s: ["-stage", "conc"]),
         dict(name="multiarch", cmd="c14", args=lambda t, s: ["-stage", "multiarch"]),
         dict(name="dqcache", cmd="c14", args=lambda t, s: ["-stage", "dqcache"]),
     )
